@@ -326,13 +326,24 @@ impl Exec {
     /// Confirms a model-level disagreement on the real code. Ok(detail) if the real result differs
     /// from the reference at a concrete input; Err(why) if it cannot be confirmed.
     fn confirm(&self, d: &Disagreement, result: &AffTree<2>, result_model: &ModelTree, expected: &ModelTree, refeval: &RefEval) -> Result<String, String> {
-        let x = Array1::from_vec(d.point.iter().map(|q| q.to_f64()).collect::<Vec<f64>>());
+        let mut last_err = String::new();
+        for p in d.candidate_points() {
+            match self.confirm_at(d, &p, result, result_model, expected, refeval) {
+                Ok(s) => return Ok(s),
+                Err(e) => last_err = e,
+            }
+        }
+        Err(last_err)
+    }
+
+    fn confirm_at(&self, d: &Disagreement, point: &[Q], result: &AffTree<2>, result_model: &ModelTree, expected: &ModelTree, refeval: &RefEval) -> Result<String, String> {
+        let x = Array1::from_vec(point.iter().map(|q| q.to_f64()).collect::<Vec<f64>>());
         let xq: Vec<Q> = x.iter().map(|v| Q::from_f64(*v)).collect();
         // the rounded point must still separate the two model trees
         let m_res = result_model.root.eval(&xq);
         let m_exp = expected.root.eval(&xq);
         if m_res == m_exp {
-            return Err(format!("rounding the interior point {:?} lost the disagreement", x.to_vec()));
+            return Err(format!("the two functions happen to agree at the interior point {:?}", x.to_vec()));
         }
         let real = guarded(|| result.evaluate(&x)).map_err(|p| format!("evaluate panicked: {p}"))?;
         let reference: Option<Array1<f64>> = match guarded(|| refeval.eval(&x)) {
